@@ -57,7 +57,7 @@ func verdict(n *sn.Node, x *pb.Transaction) (accepted bool, falseNil bool, desc 
 // and then applied through Walk (the engine's sync path) or Play. withPool first admits the
 // honest original to the twin's pool, so that x arrives under the id of a transaction the node
 // already trusts.
-func blockVerdict(n *sn.Node, honest, x *pb.Transaction, withPool, viaWalk bool) (accepted bool, skipped bool, desc string) {
+func blockVerdict(n *sn.Node, honest, x *pb.Transaction, withPool, viaWalk bool, fillers ...*pb.Transaction) (accepted bool, skipped bool, desc string) {
 	defer func() {
 		if p := recover(); p != nil {
 			accepted, skipped, desc = false, false, "PANIC: "+fmt.Sprint(p)+"\n"+string(debug.Stack())
@@ -73,7 +73,9 @@ func blockVerdict(n *sn.Node, honest, x *pb.Transaction, withPool, viaWalk bool)
 			return false, true, "original not admitted: " + err.Error()
 		}
 	}
-	blk, err := tw.FormatBlock(tw.StateTip(), tw.LedgerHeight()+1, sn.K(0), 77777, []*pb.Transaction{x}, true)
+	// independent honest transactions after x: the block then splits into several dependency
+	// groups, which Play verifies in parallel
+	blk, err := tw.FormatBlock(tw.StateTip(), tw.LedgerHeight()+1, sn.K(0), 77777, append([]*pb.Transaction{x}, fillers...), true)
 	if err != nil {
 		return false, true, err.Error()
 	}
@@ -249,7 +251,18 @@ func main() {
 			for ci := 0; ci < len(cand); ci += stepM {
 				m := cand[ci]
 				withPool, viaWalk := (ci/stepM)%2 == 0, (ci/stepM)%3 != 2
-				acc, skipped, desc := blockVerdict(n, it.Tx, m.Msg.(*pb.Transaction), withPool, viaWalk)
+				var fillers []*pb.Transaction
+				if nodeOf[it.Name] == nil && ii < len(w.Items) && (ci/stepM)%2 == 1 {
+					// corpus items are valid side by side: two of the others ride along
+					for d := 1; d <= 2; d++ {
+						o := w.Items[(ii+d)%len(w.Items)]
+						if o.Name != it.Name {
+							fillers = append(fillers, o.Tx)
+						}
+					}
+					r.Count("blockpath.trials.several-groups", 1)
+				}
+				acc, skipped, desc := blockVerdict(n, it.Tx, m.Msg.(*pb.Transaction), withPool, viaWalk, fillers...)
 				if skipped {
 					r.Count("blockpath.skipped", 1)
 					continue
@@ -510,6 +523,7 @@ func main() {
 	r.Floor("blockpath.trials", 200)
 	r.Floor("blockpath.trials.original-in-pool", 80)
 	r.Floor("blockpath.honest", 10)
+	r.Floor("blockpath.trials.several-groups", 20)
 	r.Floor("digest.groups", 1200)
 	r.Assume("ECDSA P-256 and SHA-256 are trusted; Chain.SubmitTx adds only the duplicate-id cache and the no-input rule in front of State.VerifyTx + DoTx")
 	r.Finish()
